@@ -165,17 +165,28 @@ def trace_steps(r, proj=None):
 
 # ------------------------------------------------------------------------------------------ the check
 def split_sim_traces(edges):
-    """EDGE lines of a TLC simulation (workers=1) -> list of behaviours (each a list of {a, t})"""
-    traces, cur, prev_t = [], None, None
+    """EDGE lines of a TLC simulation (workers=1) -> list of behaviours (each a list of {a, t}).
+    TLC prints all successors of the sub-action it picked (consecutive lines with the same source state);
+    the successor it continued with is the one whose target is the source of the next group."""
+    groups = []
     for e in edges:
         if not isinstance(e, dict):
             continue
         ks = canon(e["s"])
-        if cur is None or ks != prev_t:
-            cur = []
+        if groups and groups[-1][0] == ks and canon(groups[-1][1][-1]["t"]) != ks:
+            groups[-1][1].append(e)
+        else:
+            groups.append((ks, [e]))
+    traces, cur = [], []
+    for gi, (ks, alts) in enumerate(groups):
+        nxt = groups[gi + 1][0] if gi + 1 < len(groups) else None
+        chosen = next((a for a in alts if canon(a["t"]) == nxt), None)
+        cur.append({"a": (chosen or alts[0])["a"], "t": (chosen or alts[0])["t"]})
+        if chosen is None:
             traces.append(cur)
-        cur.append({"a": e["a"], "t": e["t"]})
-        prev_t = canon(e["t"])
+            cur = []
+    if cur:
+        traces.append(cur)
     return traces
 
 
